@@ -8,11 +8,20 @@ import Vlsp.Props.C05
 namespace Vlsp.C05
 open Vlsp Vlsp.Text Vlsp.Slice Vlsp.Cst Vlsp.Parsers Vlsp.Pos
 
+/-- what is reported is what the repository branch reports -/
+theorem ghaUses_some {content value : Text} {node : Node} {p : PkgInfo} (h : ghaUses content value node = some p) :
+    ghaUsesRepo content value node = some p := by
+  unfold ghaUses at h
+  split at h
+  · cases h
+  · exact h
+
 /-- where `parse_uses_value` puts the range, whatever branch (tag, hash, hash with comment) it takes -/
 theorem ghaUses_location (content value : Text) (node : Node) (p : PkgInfo) (h : ghaUses content value node = some p) :
     p.startOffset = node.sb + ghaVStart content node ∧ p.endOffset = node.eb ∧ p.line = node.info.sr ∧
     p.column = node.info.sc + ghaVStart content node := by
-  unfold ghaUses at h
+  replace h := ghaUses_some h
+  unfold ghaUsesRepo at h
   cases hs : Sites.usesSplit value with
   | none => simp [hs] at h
   | some r =>
@@ -53,7 +62,8 @@ theorem c05_gha_plain (content : Text) (v : Node) (p : PkgInfo) (hp : PlainNode 
   have hnt := nodeText_plain content v pre body post hc hsb heb
   -- the value contains an `@` (otherwise nothing is reported)
   have hat : ∃ q, findChar? (· == '@') body = some q := by
-    unfold ghaUses Sites.usesSplit at h
+    have h := ghaUses_some h
+    unfold ghaUsesRepo Sites.usesSplit at h
     rw [hnt] at h
     cases hf : findChar? (· == '@') body with
     | none => simp [hf] at h
